@@ -236,6 +236,55 @@ def rule_field_flow(cx, rid, devices=None):
     return r
 
 
+def rule_compositional(cx, rid, devices=None):
+    """what the emitter writes for a statement does not depend on the statements before it: the lines of [A, B] are the lines
+    of [A] followed by the lines of [B] (numbered helper identifiers aside), for two variants of every action class, both orders"""
+    import re as _re
+    from .. import l2, pe
+    em = mod("transpile/emitter.py")
+    cx.consulted(em)
+    cls, _fields = pe.ir_classes()
+    r = cx.rule(rid, "statement emission is context-free: for two differently-argued statements of each action class the firmware of the pair is the concatenation of their individual firmware, in both orders (no per-device memory of an earlier call's arguments leaks into a later call that omits them)", floor=(50 if devices is None else 4))
+    skip = {"Program", "ConditionalBranch", "CatchClause", "FunctionDef", "IfStatement", "WhileLoop", "ForRangeLoop", "TryStatement", "VarDecl", "VarAssign", "ReturnStmt", "BreakStmt", "ExprStmt", "ButtonPoll", "LCDTick"}
+    nz = lambda ls: [_re.sub(r"_(\d+)\b", "_N", l_) for l_ in ls]
+
+    def lines_of(nodes, dev):
+        pre = [l2.lcd_decl("parallel", True)] if dev == "LCD" else [l2.decl_node(dev)] if dev else []
+        res = pe.emit_program(setup=pre + nodes, loop=[])
+        base = pe.emit_program(setup=pre, loop=[])
+        if res.raised or base.raised:
+            return None
+
+        def body(t):
+            i = t.index("void setup() {")
+            j = t.index("\n}\n", i)
+            return [x for x in t[i:j].split("\n")[1:] if "no setup actions" not in x]
+        return body(res.text)[len(body(base.text)):]
+
+    for cname in sorted(cls):
+        dev = l2.device_of(cname)
+        if cname in skip or cname.endswith("Decl") or (devices is not None and dev not in devices):
+            continue
+        vs = [node for _kw, node in pe.variants(cname, limit=12)]
+        if not vs:
+            continue
+        a, b = vs[0], vs[-1]
+        for x, y, tag in ((a, b, "first,last"), (b, a, "last,first")):
+            la, lb, lab = lines_of([x], dev), lines_of([y], dev), lines_of([x, y], dev)
+            if None in (la, lb, lab):
+                r.ok(f"{cname}: rejected")
+                continue
+            ok = nz(lab) == nz(la) + nz(lb)
+            diff = ""
+            if not ok:
+                want = nz(la) + nz(lb)
+                got = nz(lab)
+                k = next((i for i, (p_, q_) in enumerate(zip(got, want)) if p_ != q_), min(len(got), len(want)))
+                diff = f"line {k}: `{(got[k] if k < len(got) else '<end>').strip()}` where the statement alone gives `{(want[k] if k < len(want) else '<end>').strip()}`"
+            r.check(ok, f"{cname}/emission-independent-of-earlier-statements", (em, em.func("_emit_block")), f"{cname} emitted after another {cname} ({tag} variant) differs from its stand-alone firmware: {diff}", sample=f"{cname} [{tag}]")
+    return r
+
+
 def bind_rule(cx, rid_bind="C08-BIND", rid_map="C08-MAP", only=None, floor=300):
     pm = mod(PARSER)
     am = mod("transpile/ast.py")
@@ -440,3 +489,4 @@ def run(cx):
     from . import c17
     c17.rule_message_rows(cx, "C08-MESSAGE", mod("transpile/emitter.py"))
     rule_field_flow(cx, "C08-FIELDS")
+    rule_compositional(cx, "C08-CONTEXT-FREE")
